@@ -392,6 +392,10 @@ pub fn gen_random(seed: u64, idx: u64) -> Plan {
             }
             if is_h2 {
                 e.framing = BodyFraming::Length;
+                // hyper's HTTP/2 server caps the header list at 16 KB and
+                // answers 431 above it: its configuration, not a refusal
+                // the property forbids
+                e.headers.retain(|(n, v)| !(n == "x-long" && v.len() > 8_000));
             }
             let rp = match bad {
                 Some(why) => ReqPlan { nonce, head_method: false, expect: Expect::Refuse { why } },
